@@ -63,6 +63,8 @@ func cmLiterals(extremes bool) []cmLit {
 		{"int0", "0", false, cmConst(0)},
 		{"negint", "-1000", false, cmConst(-1000)},
 		{"rfc3339offset", "'2000-01-01T02:00:00+02:00'", false, cmConst(cmV0)},
+		{"duration-subsecond", "1500ms", false, cmConst(1500e6)},
+		{"duration-negative-micro", "-250u", false, cmConst(-250e3)},
 	}
 	if extremes {
 		l = append(l,
